@@ -282,7 +282,7 @@ def check(run, replay=None):
                 h2 = shrink(exe, drv, cfg, hist, key, meta)
             run.violation(key, what + "   [case %s]" % name, "\n".join(script_of(cfg, h2)) + "\n--- output\n" + "\n".join(l[:400] for l in r["lines"] if not l.startswith(("share ", "class ", "allowed ")))[:6000],
                           no_input=corr and not spec_broken)
-    for op in ("robj", "misc", "gobj", "distadd", "distrm", "distrmdepth", "distfail", "disthandle", "mreg", "mset", "mseto", "kobj", "kinfo", "kinfoclr", "info", "infoclr", "tinfo", "tinfoclr", "refresh", "ud", "udclr", "restrict"):
+    for op in ("robj", "misc", "gobj", "distadd", "distrm", "distrmdepth", "distfail", "disthandle", "mreg", "mset", "mseto", "kobj", "kinfo", "kinfoclr", "subtype", "info", "infoclr", "tinfo", "tinfoclr", "refresh", "ud", "udclr", "restrict"):
         n = sum(1 for (_, _, hist, _) in cases for l in hist if (" " + op + " ") in (" " + l + " "))
         if n:
             run.bump("op:" + op, n)
